@@ -6,7 +6,7 @@ From Chibicc Require Import Model.IntLit.
 Import ListNotations.
 Local Open Scope N_scope.
 
-Definition fits (t : ity) (v : N) : bool :=
+Definition fits (t : lit_ty) (v : N) : bool :=
   match t with
   | TInt => v <? 2147483648
   | TUInt => v <? 4294967296
@@ -15,7 +15,7 @@ Definition fits (t : ity) (v : N) : bool :=
   end.
 
 (* the table of 6.4.4.1p5; [l] stands for either l/L or ll/LL *)
-Definition candidates (decimal l u : bool) : list ity :=
+Definition candidates (decimal l u : bool) : list lit_ty :=
   match decimal, u, l with
   | true,  false, false => [TInt; TLong; TLong]
   | true,  true,  false => [TUInt; TULong; TULong]
@@ -27,6 +27,6 @@ Definition candidates (decimal l u : bool) : list ity :=
   | false, true,  true  => [TULong; TULong]
   end.
 
-Definition first_fit (l : list ity) (v : N) : option ity := find (fun t => fits t v) l.
-Definition c11_literal_type (decimal l u : bool) (v : N) : option ity :=
+Definition first_fit (l : list lit_ty) (v : N) : option lit_ty := find (fun t => fits t v) l.
+Definition c11_literal_type (decimal l u : bool) (v : N) : option lit_ty :=
   first_fit (candidates decimal l u) v.
